@@ -120,6 +120,7 @@ class ProjInitCtx(JobCtx):
 class ProjectInitRG(RGContract):
     """Project(path) raced by other processes opening the same project (workspace directory created concurrently)"""
     target = f"{PRJ}.Project.__init__"
+    properties = ("C12", "C20")
     ctx_class = ProjInitCtx
     inline = GETTERS + (f"{CFG}._get_project_config_fn", f"{PRJ}.Project._check_schema_compatibility", f"{PRJ}.Project.config", "signac._utility._mkdir_p")
 
